@@ -538,8 +538,8 @@ def run(ctx):
         runs, nrand = [([(2, 1), (1, 3)], 3)], 200
     else:
         # (families, calls per behaviour): deep behaviours on <=2 triangles in (-3..3)^2 and <=3 in (-1..1)^2,
-        # two-call behaviours on every set of <=3 triangles in (-2..2)^2
-        runs, nrand = [([(3, 2), (1, 3)], 3), ([(2, 3)], 2)], 2000
+        # every single call on every set of <=3 triangles in (-2..2)^2
+        runs, nrand = [([(3, 2), (1, 3)], 3), ([(2, 3)], 1)], 2000
     ctx.bounds = {"machine_runs_(families_(range,max_triangles),calls_per_behaviour)": runs, "flipped": [False, True],
                   "up_samplings": f"0..{MAXLEVEL}", "up/nbr_on_sets_up_to": maxlenup, "containment_on_sets_up_to": maxlenobs,
                   "for_indexes_on_sets_up_to": maxlensel, "all_index_subsets_up_to": selallmax,
@@ -578,34 +578,31 @@ def run(ctx):
                         sampled.add(want)
                         break
 
-    # batches keep the memory of the recorded calls bounded; every batch is validated by its own TLC processes
+    # batches keep the memory of the recorded calls bounded; every batch (behaviours of up to 1200 initial inputs plus
+    # the records of up to 1000 random instances) is validated by its own TLC processes
     groups.sort(key=lambda g: (len(g[0]), g[0], g[1]))
     batch = 1200
-    for b in range(0, len(groups), batch):
+    ks = list(range(nrand))
+    rand_batches = [ks[b : b + 1000] for b in range(0, nrand, 1000)]
+    nbatches = max(-(-len(groups) // batch), len(rand_batches))
+    for b in range(nbatches):
         ta = time.time()
         recs = []
-        for part, mr in core.pmap(replay_group, [(c, fl, paths, ctx.seed) for c, fl, paths in groups[b : b + batch]], chunksize=4):
+        for part, mr in core.pmap(replay_group, [(c, fl, paths, ctx.seed) for c, fl, paths in groups[b * batch : (b + 1) * batch]], chunksize=4):
             recs.extend(part)
             maxres = max(maxres, mr)
         nb += len(recs)
+        if b < len(rand_batches):
+            sub = rand_batches[b]
+            for part in core.pmap(_rand_many, [(ctx.seed, sub[j::64]) for j in range(64)], chunksize=1):
+                recs.extend(part)
+                nrec += len(part)
         tb = time.time()
         take_samples(recs)
-        validate(ctx, recs, f"C20-b{b // batch}")
+        validate(ctx, recs, f"C20-b{b}")
         t_replay += tb - ta
         t_valid += time.time() - tb
     ctx.replayed = nbeh_distinct
-    ks = list(range(nrand))
-    for b in range(0, nrand, 1000):
-        ta = time.time()
-        recs = []
-        sub = ks[b : b + 1000]
-        for part in core.pmap(_rand_many, [(ctx.seed, sub[j::64]) for j in range(64)], chunksize=1):
-            recs.extend(part)
-        nrec += len(recs)
-        tb = time.time()
-        validate(ctx, recs, f"C20-r{b // 1000}")
-        t_replay += tb - ta
-        t_valid += time.time() - tb
     ctx.note(f"phases: TLC machine {t1 - t0:.0f}s, replay into the implementation {t_replay:.0f}s, trace validation {t_valid:.0f}s")
     ctx.note(f"{len(groups)} initial inputs, {nbeh_distinct} distinct behaviours ({nbeh} enumerated) replayed -> {nb} records; {nrand} random instances -> {nrec} records; "
              f"largest lattice residual seen in the exhaustive part {maxres:.2e} fine units (tolerance {TOL})")
